@@ -209,6 +209,8 @@ class AddressBase(Base):
             self._line_addrgroup(line)
         else:
             raise ValueError(f"invalid address {line=}")
+        if self._type != "addrgroup":
+            self._items = []  # members belong to an address group only
 
     @property
     def platform(self) -> str:
